@@ -12,12 +12,14 @@ import (
 	"net/url"
 	"reflect"
 	"strings"
+	"sync"
 	"sync/atomic"
 	"time"
 
 	"github.com/rs/cors"
 	"golang.org/x/oauth2"
 
+	"verifharness/drv"
 	"verifharness/opfix"
 	"verifharness/refstore"
 
@@ -173,6 +175,13 @@ type memRT struct {
 func (t *memRT) RoundTrip(req *http.Request) (*http.Response, error) {
 	w := t.w
 	u := *req.URL
+	var raw []byte
+	if req.Body != nil {
+		raw, _ = io.ReadAll(req.Body)
+		req.Body.Close()
+	}
+	w.logOut(req, raw)
+	yield(req.Context()) // a scheduling point of the cooperative interleaving runs
 	if w.bounce.Load() {
 		q := u.Query()
 		if q.Get("bounced") == "" {
@@ -193,10 +202,8 @@ func (t *memRT) RoundTrip(req *http.Request) (*http.Response, error) {
 		return res, err
 	}
 	var body io.Reader
-	if req.Body != nil {
-		b, _ := io.ReadAll(req.Body)
-		req.Body.Close()
-		body = strings.NewReader(string(b))
+	if raw != nil {
+		body = strings.NewReader(string(raw))
 	}
 	r2 := httptest.NewRequest(req.Method, u.String(), body)
 	for k, v := range req.Header {
@@ -211,12 +218,180 @@ func (t *memRT) RoundTrip(req *http.Request) (*http.Response, error) {
 				rec.WriteHeader(http.StatusInternalServerError)
 			}
 		}()
-		w.backend.Handlers[opfix.Provider].ServeHTTP(rec, r2)
+		w.backendFor(u.Host).Handlers[opfix.Provider].ServeHTTP(rec, r2)
 	}()
 	res := rec.Result()
 	res.Request = req
 	return res, nil
 }
+
+// ---- tenants: two OPs with the same client ids, key ids and kid, but different issuers and keys
+
+const issuer2 = "https://op2.example.com"
+
+func issuerOf(t int) string {
+	if t == 2 {
+		return issuer2
+	}
+	return opfix.Issuer
+}
+
+func tenantOfURL(s string) int {
+	switch {
+	case strings.HasPrefix(s, issuer2):
+		return 2
+	case strings.HasPrefix(s, opfix.Issuer):
+		return 1
+	}
+	return 0
+}
+
+func (w *world) backendFor(host string) *opfix.Fixture {
+	if host == "op2.example.com" {
+		return w.backend2
+	}
+	return w.backend
+}
+
+// outgoing requests as the OP side sees them (what each call really carried)
+type outReq struct {
+	handle *coopReq
+	tenant int // by target host
+	aud    int // tenant named by the aud of a client assertion (0 = no assertion)
+	path   string
+	form   url.Values
+}
+
+func (w *world) logOut(req *http.Request, raw []byte) {
+	o := outReq{tenant: tenantOfURL(req.URL.Scheme + "://" + req.URL.Host), path: req.URL.Path}
+	o.handle, _ = req.Context().Value(coopKey{}).(*coopReq)
+	o.form, _ = url.ParseQuery(string(raw))
+	if a := o.form.Get("client_assertion"); a != "" {
+		o.aud = 90
+		if p := opfix.JWTPayload(a); p != nil {
+			var auds []string
+			switch v := p["aud"].(type) {
+			case string:
+				auds = []string{v}
+			case []any:
+				for _, x := range v {
+					auds = append(auds, fmt.Sprint(x))
+				}
+			}
+			for _, x := range auds {
+				if t := tenantOfURL(x); t != 0 {
+					o.aud = t
+				}
+			}
+		}
+	}
+	w.outMu.Lock()
+	w.outlog = append(w.outlog, o)
+	w.outMu.Unlock()
+}
+
+func (w *world) outSince(n int) []outReq {
+	w.outMu.Lock()
+	defer w.outMu.Unlock()
+	return append([]outReq(nil), w.outlog[n:]...)
+}
+
+func (w *world) outLen() int {
+	w.outMu.Lock()
+	defer w.outMu.Unlock()
+	return len(w.outlog)
+}
+
+// ---- cooperative scheduling of overlapping requests: a request runs until its pauseAt-th
+// scheduling point (a ResponseWriter method or an outgoing round trip), parks, and is resumed
+// later; exactly one request runs at any time, so the interleaving is deterministic.
+
+type coopKey struct{}
+
+type coopReq struct {
+	idx            int
+	pauseAt        int
+	yields         atomic.Int32
+	parked, resume chan struct{}
+	done           chan struct{}
+	paused, hung   bool
+}
+
+func newCoop(idx, pauseAt int) *coopReq {
+	return &coopReq{idx: idx, pauseAt: pauseAt, parked: make(chan struct{}), resume: make(chan struct{}), done: make(chan struct{})}
+}
+
+func (c *coopReq) yield() {
+	if int(c.yields.Add(1)) == c.pauseAt {
+		c.parked <- struct{}{}
+		<-c.resume
+	}
+}
+
+func yield(ctx context.Context) {
+	if c, ok := ctx.Value(coopKey{}).(*coopReq); ok {
+		c.yield()
+	}
+}
+
+// start runs f until it parks or finishes (a time-out is an observed outcome, never a hang)
+func (c *coopReq) start(f func()) {
+	go func() {
+		defer close(c.done)
+		drv.Catch(f)
+	}()
+	c.wait(2 * time.Second)
+}
+
+// wait until the request parks or finishes; false = neither happened within d
+func (c *coopReq) wait(d time.Duration) bool {
+	select {
+	case <-c.parked:
+		c.paused = true
+	case <-c.done:
+	case <-time.After(d):
+		return false
+	}
+	return true
+}
+
+func (c *coopReq) isDone() bool {
+	select {
+	case <-c.done:
+		return true
+	default:
+		return false
+	}
+}
+
+func (c *coopReq) finish() {
+	if c.hung {
+		return
+	}
+	if c.paused {
+		c.paused = false
+		select {
+		case c.resume <- struct{}{}:
+		case <-time.After(5 * time.Second):
+			c.hung = true
+			return
+		}
+	}
+	select {
+	case <-c.done:
+	case <-time.After(5 * time.Second):
+		c.hung = true
+	}
+}
+
+type yieldWriter struct {
+	http.ResponseWriter
+	c *coopReq
+}
+
+func (y yieldWriter) Header() http.Header         { y.c.yield(); return y.ResponseWriter.Header() }
+func (y yieldWriter) Write(b []byte) (int, error) { y.c.yield(); return y.ResponseWriter.Write(b) }
+func (y yieldWriter) WriteHeader(code int)        { y.c.yield(); y.ResponseWriter.WriteHeader(code) }
 
 // fault modes of the in-memory OP as seen by clients (race tier: error paths).
 //
@@ -292,11 +467,16 @@ type worldCfg struct {
 }
 
 type world struct {
-	cfg     worldCfg
-	reg     *registry
-	backend *opfix.Fixture
-	bounce  atomic.Bool
-	bounced atomic.Int64
+	cfg      worldCfg
+	reg      *registry
+	backend  *opfix.Fixture // tenant 1
+	backend2 *opfix.Fixture // tenant 2: same clients and kid, other issuer and signing key
+	outMu    sync.Mutex
+	outlog   []outReq
+	tok2     *tokens
+	runID    int // fresh per world: identifiers derived from it are shared by all instances of ONE run, never across runs
+	bounce   atomic.Bool
+	bounced  atomic.Int64
 	// fault injection (race tier)
 	jwksMode   atomic.Int32
 	errMode    atomic.Int32
@@ -341,14 +521,23 @@ func mkSlice[T any](spare bool, xs ...T) []T {
 	return s
 }
 
+var runCounter int
+
 func newWorld(cfg worldCfg) *world {
 	restorePristine()
+	runCounter++
 	w := &world{cfg: cfg, reg: newRegistry(), inst: map[int]any{}, stores: map[int]*refstore.Store{}, customEps: map[string]*op.Endpoint{}}
 	f, err := opfix.New(opfix.NewStd(), opfix.Options{})
 	if err != nil {
 		panic(err)
 	}
 	w.backend = f
+	w.runID = runCounter
+	st2 := opfix.NewStd()
+	st2.Signing = &refstore.SigningKey{KID: opfix.DefaultSigning().KID, Alg: opfix.DefaultSigning().Alg, Priv: tenant2Key}
+	if w.backend2, err = opfix.New(st2, opfix.Options{Issuer: issuer2}); err != nil {
+		panic(err)
+	}
 	for i := range w.rts {
 		w.rts[i] = &memRT{w: w, name: fmt.Sprint("rt", i)}
 	}
@@ -520,8 +709,14 @@ type tokens struct {
 	jwtAccess                 string
 }
 
+var tenant2Key = opfix.ECKey("c20-tenant2")
+
 func (w *world) codeFlow(clientID, redirect string) (code string) {
-	f := w.backend
+	return w.codeFlowT(1, clientID, redirect)
+}
+
+func (w *world) codeFlowT(t int, clientID, redirect string) (code string) {
+	f := w.backendFor(strings.TrimPrefix(issuerOf(t), "https://"))
 	q := url.Values{"client_id": {clientID}, "redirect_uri": {redirect}, "response_type": {"code"},
 		"scope": {"openid profile offline_access"}, "state": {"st"}}
 	_, id := f.Authorize(opfix.Provider, q)
@@ -530,16 +725,22 @@ func (w *world) codeFlow(clientID, redirect string) (code string) {
 	return cb.ResponseParams().Get("code")
 }
 
-func (w *world) tokens() *tokens {
-	if w.tok != nil {
-		return w.tok
+func (w *world) tokens() *tokens { return w.tokensT(1) }
+
+func (w *world) tokensT(t int) *tokens {
+	slot := &w.tok
+	if t == 2 {
+		slot = &w.tok2
 	}
-	f := w.backend
-	code := w.codeFlow("web", "https://web.example.com/cb")
+	if *slot != nil {
+		return *slot
+	}
+	f := w.backendFor(strings.TrimPrefix(issuerOf(t), "https://"))
+	code := w.codeFlowT(t, "web", "https://web.example.com/cb")
 	r := f.Post(opfix.Provider, "/oauth/token", url.Values{"grant_type": {"authorization_code"}, "code": {code},
 		"redirect_uri": {"https://web.example.com/cb"}}, []string{"web", "web-secret"}, "")
-	w.tok = &tokens{access: r.Str("access_token"), refresh: r.Str("refresh_token"), id: r.Str("id_token")}
-	return w.tok
+	*slot = &tokens{access: r.Str("access_token"), refresh: r.Str("refresh_token"), id: r.Str("id_token")}
+	return *slot
 }
 
 type bareCaller struct {
